@@ -24,7 +24,11 @@ impl Tracer {
     /// start a new scenario: the event carries the full initial state
     pub fn reset(&mut self, name: &str, st: Value) {
         self.sc += 1;
-        self.emit("reset", json!({"name": name, "post": st}));
+        // the account and LP-denom universes of the scenario, for the specification's ghost state
+        let accts: Vec<String> = st.get("bal").and_then(|b| b.as_object()).map(|m| m.keys().cloned().collect()).unwrap_or_default();
+        let denoms: Vec<String> = st.get("supply").and_then(|b| b.as_object()).map(|m| m.keys().cloned().collect()).unwrap_or_default();
+        let lps: Vec<String> = denoms.iter().filter(|d| d.starts_with("LP:")).cloned().collect();
+        self.emit("reset", json!({"name": name, "post": st, "accts": accts, "denoms": denoms, "lps": lps}));
     }
     pub fn emit(&mut self, ev: &str, mut body: Value) {
         self.i += 1;
